@@ -341,7 +341,16 @@ class C19Cuckoo(CuckooWorld):
             s["uniq"] = f.unique_elements
         return s
 
-    def do_restart(self, step):  # here: a batch of read-only calls
+    def do_restart(self, step):
+        from ..worlds.cuckoo import cuckoo_export, cuckoo_load
+
+        if "reads" not in step:
+            # a real restart: reads are also made on tables obtained by loading an export
+            payload, path = cuckoo_export(self, self.f, step["chan"])
+            self.f = cuckoo_load(self, payload, path, step["chan"])
+            self.ctx.fault("restart_" + step["chan"])
+            self.adopt(self.f, self.model, {"op": "restart"})
+            return {"r": "ok"}
         f = self.f
         before = self.snap()
         for kind, k in step.get("reads", []):
